@@ -199,10 +199,15 @@ func HarnessC07Table() {
 		for j := 0; j < c; j++ {
 			w := g.tok()
 			cells = append(cells, w)
-			if vx.Choose("cellform", 3) == 1 {
+			td := "<td>"
+			switch vx.Choose("cellform", 3) {
+			case 1:
 				w = "<p>" + w + "</p>"
+			case 2:
+				// attributes that say "rendered" in so many words
+				td = `<td aria-hidden="false" style="display:table-cell; visibility:visible">`
 			}
-			t += "<td>" + w + "</td>"
+			t += td + w + "</td>"
 		}
 		t += "</tr>"
 	}
